@@ -1,6 +1,7 @@
 import Driver.Util
 import Driver.C14
 import Driver.Crypto
+import Driver.Gss
 
 open Driver
 
@@ -12,6 +13,7 @@ def dispatch (line : String) : String :=
     let r : Option String :=
       if op.startsWith "kt." then C14.handle op args
       else if op.startsWith "cr." then Crypto.handle op args
+      else if op.startsWith "gss." then Gss.handle op args
       else none
     match r with
     | some s => s
